@@ -471,7 +471,10 @@ def common_rewrites(ctx, sf, a, b, item_kind, opts):
                     itn = getattr(ctx, "foreach_iter", {}).get(close_rng + 2)
                     edits.append(Edit(t.start, body_lo, f"for {var} in {itn + ': ' if itn else ''}{rng} "))
                     edits.append(Edit(body_lo, body_lo, "{ ", prio=0.5))
-                    edits.append(Edit(body_hi, semi.end, (";" if needs_semi else "") + " }"))
+                    if needs_semi:
+                        # the `;` goes in front of anything a unit inserts at the end of the body (loop_body_end hints)
+                        edits.append(Edit(body_hi, body_hi, ";", prio=-5))
+                    edits.append(Edit(body_hi, semi.end, " }"))
                     ctx.fire("N4", sf, t.start)
                     k = call_open + boff
                     continue
